@@ -22,6 +22,7 @@ type Solver struct {
 	w        *bufio.Writer
 	out      *bufio.Reader
 	declared map[string]bool
+	Retries int
 	Queries  int
 	Time     time.Duration
 	depth    int
@@ -102,6 +103,14 @@ func (s *Solver) Check() string {
 	s.send("(check-sat)")
 	r := s.readLine()
 	s.Queries++
+	// "unknown" here means the per-query time limit was hit (the queries are quantifier-free bit-vector
+	// problems). On a loaded machine a starved solver process can hit it on a trivial query: ask again,
+	// twice at most; a query that stays unknown is reported as such and makes the run inconclusive.
+	for retry := 0; r == "unknown" && retry < 2; retry++ {
+		s.Retries++
+		s.send("(check-sat)")
+		r = s.readLine()
+	}
 	s.Time += time.Since(t0)
 	if r != "sat" && r != "unsat" && r != "unknown" {
 		panic(solverErr{"unexpected check-sat answer: " + r})
